@@ -238,19 +238,38 @@ fn short(file: &str) -> &str {
 thread_local! {
     static LAST_PANIC: RefCell<Option<String>> = const { RefCell::new(None) };
     static QUIET: std::cell::Cell<u32> = const { std::cell::Cell::new(0) };
+    static IS_HARNESS_THREAD: std::cell::Cell<bool> = const { std::cell::Cell::new(false) };
 }
+
+/// Mark the calling thread as one of the harness's own (its panics outside quiet scopes are
+/// harness errors and are printed).
+pub fn mark_harness_thread() {
+    IS_HARNESS_THREAD.with(|h| h.set(true));
+}
+
+/// number of threads currently inside a quiet scope (code under test may panic on threads the
+/// harness does not own, e.g. rayon's global pool: those panics are recorded, not printed)
+static ACTIVE_SCOPES: std::sync::atomic::AtomicUsize = std::sync::atomic::AtomicUsize::new(0);
+/// message -> location of recent panics on any thread
+static PANIC_LOCS: Mutex<BTreeMap<String, String>> = Mutex::new(BTreeMap::new());
 
 struct QuietGuard;
 impl QuietGuard {
     fn new() -> Self {
         QUIET.with(|q| q.set(q.get() + 1));
+        ACTIVE_SCOPES.fetch_add(1, std::sync::atomic::Ordering::SeqCst);
         QuietGuard
     }
 }
 impl Drop for QuietGuard {
     fn drop(&mut self) {
         QUIET.with(|q| q.set(q.get().saturating_sub(1)));
+        ACTIVE_SCOPES.fetch_sub(1, std::sync::atomic::Ordering::SeqCst);
     }
+}
+
+fn lookup_panic_loc(msg: &str) -> Option<String> {
+    PANIC_LOCS.lock().unwrap_or_else(|e| e.into_inner()).get(msg).cloned()
 }
 
 /// Install a process-wide quiet panic hook that records the message per thread.
@@ -267,6 +286,13 @@ pub fn install_panic_hook() {
             .location()
             .map(|l| format!("{}:{}", short(l.file()), l.line()))
             .unwrap_or_default();
+        {
+            let mut m = PANIC_LOCS.lock().unwrap_or_else(|e| e.into_inner());
+            if m.len() > 512 {
+                m.clear();
+            }
+            m.insert(msg.clone(), loc.clone());
+        }
         // a simulated worker thread ("qsim-w<pool>-<i>"): quiet, recorded under its pool id
         if let Some(name) = std::thread::current().name() {
             if let Some(rest) = name.strip_prefix("qsim-w") {
@@ -280,7 +306,11 @@ pub fn install_panic_hook() {
                 }
             }
         }
-        if QUIET.with(|q| q.get()) == 0 {
+        let foreign_thread_during_run = QUIET.with(|q| q.get()) == 0
+            && ACTIVE_SCOPES.load(std::sync::atomic::Ordering::SeqCst) > 0
+            && std::thread::current().name().map(|n| !n.starts_with("qsim-h")).unwrap_or(true)
+            && !IS_HARNESS_THREAD.with(|h| h.get());
+        if QUIET.with(|q| q.get()) == 0 && !foreign_thread_during_run {
             eprintln!("qsim: harness panic: {msg} @ {loc}");
         }
         LAST_PANIC.with(|p| *p.borrow_mut() = Some(format!("{msg} @ {loc}")));
@@ -302,21 +332,33 @@ pub enum Caught<T> {
 
 /// Run `f` with a simulator core installed behind the seams; returns the result
 /// (or the panic) and the core.
-pub fn with_sim<T>(core: Core, f: impl FnOnce() -> T) -> (Caught<T>, Core) {
+pub fn with_sim<T: Send>(core: Core, f: impl FnOnce() -> T + Send) -> (Caught<T>, Core) {
     let pool_workers = core.pool_workers;
-    let arc = Arc::new(Mutex::new(core));
+    let mut arc = Arc::new(Mutex::new(core));
     quizx::verif::install(Box::new(SimHandle(arc.clone())));
     let pool_id = if pool_workers > 0 { quizx::verif::pool::start(pool_workers) } else { 0 };
     let _ = take_panic();
     let r = {
         let _q = QuietGuard::new();
-        std::panic::catch_unwind(std::panic::AssertUnwindSafe(f))
+        // with a pool, the code under test runs as a task of worker 0 (like ThreadPool::install)
+        std::panic::catch_unwind(std::panic::AssertUnwindSafe(|| quizx::verif::pool::run_on_pool(f)))
     };
-    // stops the pool (joins the worker threads) and drops the installed handle
+    // stops the pool (every simulated worker leaves its loop) and drops the installed handle
     let _ = quizx::verif::uninstall();
-    let core = match Arc::try_unwrap(arc) {
-        Ok(m) => m.into_inner().unwrap_or_else(|e| e.into_inner()),
-        Err(_) => panic!("simulator core still shared after run"),
+    // the pool's broadcast closure (which holds a handle) is released by rayon a moment after the
+    // last worker has left it
+    let t0 = std::time::Instant::now();
+    let core = loop {
+        match Arc::try_unwrap(arc) {
+            Ok(m) => break m.into_inner().unwrap_or_else(|e| e.into_inner()),
+            Err(a) => {
+                arc = a;
+                if t0.elapsed().as_secs() > 20 {
+                    panic!("simulator core still shared 20 s after the run");
+                }
+                std::thread::yield_now();
+            }
+        }
     };
     let out = match r {
         Ok(v) => Caught::Ok(v),
@@ -325,8 +367,8 @@ pub fn with_sim<T>(core: Core, f: impl FnOnce() -> T) -> (Caught<T>, Core) {
             // through the panic hook again: its message was recorded under the pool id
             let msg = take_panic()
                 .or_else(|| take_worker_panic(pool_id))
-                .or_else(|| payload.downcast_ref::<String>().cloned())
-                .or_else(|| payload.downcast_ref::<&str>().map(|s| s.to_string()))
+                .or_else(|| payload.downcast_ref::<String>().cloned().map(with_loc))
+                .or_else(|| payload.downcast_ref::<&str>().map(|s| with_loc(s.to_string())))
                 .unwrap_or_else(|| "<unknown panic>".into());
             if msg.contains(BUDGET_MARKER) || msg.contains(crate::decider::DRAW_LIMIT_MARKER) {
                 Caught::Budget
@@ -337,6 +379,13 @@ pub fn with_sim<T>(core: Core, f: impl FnOnce() -> T) -> (Caught<T>, Core) {
     };
     let _ = take_worker_panic(pool_id);
     (out, core)
+}
+
+fn with_loc(msg: String) -> String {
+    match lookup_panic_loc(&msg) {
+        Some(loc) => format!("{msg} @ {loc}"),
+        None => format!("{msg} @ "),
+    }
 }
 
 static WORKER_PANICS: Mutex<BTreeMap<u64, String>> = Mutex::new(BTreeMap::new());
@@ -357,8 +406,11 @@ pub fn catch<T>(f: impl FnOnce() -> T) -> Caught<T> {
     };
     match r {
         Ok(v) => Caught::Ok(v),
-        Err(_) => {
-            let msg = take_panic().unwrap_or_else(|| "<unknown panic>".into());
+        Err(payload) => {
+            let msg = take_panic()
+                .or_else(|| payload.downcast_ref::<String>().cloned().map(with_loc))
+                .or_else(|| payload.downcast_ref::<&str>().map(|s| with_loc(s.to_string())))
+                .unwrap_or_else(|| "<unknown panic>".into());
             if msg.contains(BUDGET_MARKER) || msg.contains(crate::decider::DRAW_LIMIT_MARKER) {
                 Caught::Budget
             } else {
